@@ -507,3 +507,37 @@ Theorem C10_cancel_stake_is_the_source : forall (num : bytes -> Z) (e : env) (a 
       end
   end.
 Proof. exact cancel_stake_is_source. Qed.
+Theorem C10_withdraw_qsr_is_the_source : forall (num : bytes -> Z) (self : bytes) (a : cacct cstore) (s : send),
+  let cur := match tget (q_dep (a_store a)) (s_from s) with Some v => v | None => 0 end in
+  match withdraw_qsr_validate s with
+  | VErr c =>
+      withdraw_qsr_receive self a s = MErr c /\
+      (c <> 0 -> forall g q d own, WithdrawQsr_receive c g q d own = GoSem.Ok (nil, c, None))
+  | VPanic => withdraw_qsr_receive self a s = MPanic
+  | VOk _ =>
+      let src := WithdrawQsr_receive 0 0 cur 0 (num (s_from s)) in
+      if cur =? 0 then
+        withdraw_qsr_receive self a s = MErr E_nothing_to_withdraw /\
+        src = GoSem.Ok (nil, Err_constants_ErrNothingToWithdraw, None)
+      else
+        exists a',
+          withdraw_qsr_receive self a s = MOk a' [{| d_to := s_from s; d_amount := cur; d_zts := ZtsQsr; d_data := [] |}] /\
+          src = GoSem.Ok ([(num (s_from s), cur, QsrTokenStandard)], 0, Some 1) /\
+          tget (q_dep (a_store a')) (s_from s) = None
+  end.
+Proof. exact withdraw_qsr_is_source. Qed.
+(* DepositQsr: the source adds exactly the received amount; the model stores it as a uint256 (the same number below 2^256) *)
+Theorem C10_deposit_qsr_is_the_source : forall (a : cacct cstore) (s : send),
+  let cur := match tget (q_dep (a_store a)) (s_from s) with Some v => v | None => 0 end in
+  match deposit_qsr_validate s with
+  | VErr c =>
+      deposit_qsr_receive a s = MErr c /\
+      (c <> 0 -> forall q g amt sv, DepositQsr_receive q c g amt sv = GoSem.Ok (nil, c, q, None))
+  | VPanic => deposit_qsr_receive a s = MPanic
+  | VOk _ =>
+      exists a',
+        deposit_qsr_receive a s = MOk a' [] /\
+        DepositQsr_receive cur 0 0 (s_amount s) 0 = GoSem.Ok (nil, 0, cur + s_amount s, Some 1) /\
+        tget (q_dep (a_store a')) (s_from s) = Some (u256 (cur + s_amount s))
+  end.
+Proof. exact deposit_qsr_is_source. Qed.
